@@ -320,6 +320,8 @@ func runC02(c *Ctx) {
 	runC02Chain(c, funcs)
 	runC02Round4(c)
 	runC02Round5(c)
+	runC02Shares5(c)
+	runC02Round5b(c)
 	runDoneHandOff(c, "R11")
 }
 
